@@ -2,7 +2,7 @@
 
 (a) rx : the live ``_JWS_SHAPED`` under the method ``on_post`` applies to it:
          {header.payload.signature with non-empty header and payload and a possibly EMPTY signature (unsecured JWS,
-         alg=none)} ⊆ L(impl) ⊆ {same, payload may also be empty, optional trailing newline}; decided for all strings.
+         alg=none)} ⊆ L(impl) ⊆ {strings with at least two '.' separators}; decided for all strings.
 (b) xh : the real ``_TokenIntrospectionResource.on_post`` / ``_read_token`` / ``_refuse`` and
          ``_IntrospectionDisabledResource.on_post`` on fake falcon req/resp objects:
          symbolic caller (anonymous / allowlisted / not / unauthenticated-but-named), body (declared length, actual
@@ -41,9 +41,10 @@ ENCODED = [
 _TL = pick(4, 6)
 BOUNDS = (
     "rx: all strings; xh: 5 caller kinds; declared Content-Length any int or absent; actual body length any int>=0; "
-    "14 JSON body shapes; subject token any str len<=%d, or exactly _MAX_TOKEN_CHARS / _MAX_TOKEN_CHARS+1 chars; "
+    "15 JSON body shapes (the canonical one-key request, the same with an extra key [either outcome], 13 unusable ones); subject token any str len<=%d, or exactly _MAX_TOKEN_CHARS / _MAX_TOKEN_CHARS+1 chars; "
     "ttl_seconds any int, nan, +-inf, a finite float, bool, None, str; principal/token_name any str len<=2; "
-    "retry_after 0..1 (rendering a symbolic int to text enumerates its values)" % _TL
+    "retry_after 0..1 (rendering a symbolic int to text enumerates its values); a finite positive *float* ttl and the "
+    "extra-key body may be answered either way" % _TL
 )
 OUTSIDE = (
     "quick tier: interaction between the request gates (caller/lengths/body shape) and the subject/resolver part is "
@@ -90,17 +91,26 @@ _B64 = "[A-Za-z0-9_-]"
 # IS empty for an Unsecured JWS / unsecured JWT ("alg":"none", RFC 7515 §A.5, RFC 7519 §6 — "header.payload.").
 # Vouching for exactly that form is the classic alg=none confusion, so it is inside the MUST-refuse set.
 SPEC_MIN = rf"{_B64}+\.{_B64}+\.{_B64}*"
-# Over-refusal that is still "JWS-shaped": a detached-content JWS (empty payload, RFC 7515 App. F) and the one
-# trailing newline Python's `$` admits.  Anything outside SPEC_MAX must reach the resolver.
-SPEC_MAX = rf"{_B64}+\.{_B64}*\.{_B64}*\n?"
+# What MAY be refused as "JWS-shaped" without asking the resolver.  The property does not define the shape beyond
+# "JWS-shaped", so the tolerated over-refusal is generous: any compact JOSE look-alike, i.e. any string with at least
+# two '.' separators (detached-content JWS, 5-segment JWE, '=' padding, surrounding whitespace, trailing newline ...).
+# A subject with fewer than two dots has no header.payload.signature reading at all: it MUST reach the resolver
+# (the property's "otherwise exactly principal, token_name and ttl_seconds").
+SPEC_MAX = r"[^.]*\.[^.]*\.[\s\S]*"
 _SPEC_MIN_RE = re.compile(SPEC_MIN, re.ASCII)
-_SPEC_MAX_RE = re.compile(SPEC_MAX, re.ASCII)
+_SPEC_MAX_RE = re.compile(SPEC_MAX)
+
+
+def _may_be_refused_as_jws(token: str) -> bool:
+    """SPEC_MAX as a branch-light predicate (used on symbolic tokens)."""
+    i = token.find(".")
+    return i >= 0 and token.find(".", i + 1) >= 0
 
 
 def _replay_jws(token: str, mode: str) -> dict:
     """Real replay: POST the witness to the real app; a JWS-shaped subject must be refused without the resolver."""
     must_refuse = re.fullmatch(SPEC_MIN, token, re.ASCII) is not None
-    may_refuse = re.fullmatch(SPEC_MAX, token, re.ASCII) is not None
+    may_refuse = _SPEC_MAX_RE.fullmatch(token) is not None
     calls: list = []
 
     def resolver(t: str) -> intro.TokenIdentity | None:
@@ -122,7 +132,10 @@ def _replay_jws(token: str, mode: str) -> dict:
 def jws_shape_language(budget: float, replay=None) -> dict:
     from engine import rx
 
-    mode = _regex_mode()
+    try:
+        mode = _regex_mode()
+    except RuntimeError as e:
+        return {"verdict": "INCONCLUSIVE", "detail": f"{e}: the language question cannot be asked of the live pattern (the table items still judge the endpoint)", "queries": 0, "discharged": 0}
     pattern = intro._JWS_SHAPED
     if replay is not None:
         return _replay_jws(replay["s"], mode)
@@ -131,7 +144,7 @@ def jws_shape_language(budget: float, replay=None) -> dict:
     except rx.Unsupported as e:
         return {"verdict": "INCONCLUSIVE", "detail": f"regex construct outside the translator: {e}", "queries": 0, "discharged": 0}
     lo = rx.lang(re.compile(SPEC_MIN, re.ASCII), "fullmatch")
-    hi = rx.lang(re.compile(SPEC_MAX, re.ASCII), "fullmatch")
+    hi = rx.lang(_SPEC_MAX_RE, "fullmatch")
     q = rx.Query(timeout_s=min(20.0, budget / 3))
     corpus = q.members(impl, 25, "members(impl)") + [
         "a.b.c", "a.b.", "a.b", "a..c", ".b.c", "a.b.c\n", "a.b.c\n\n", "a.b.c.d", "a b.c.d", "", "opaque-token", "é.b.c", "a.b.c ", "A-_.0.9",
@@ -144,7 +157,7 @@ def jws_shape_language(budget: float, replay=None) -> dict:
     r1, w1 = q.member_of_difference(lo, impl, "seg+ . seg+ . seg* (signed and unsecured JWS) ⊆ L(_JWS_SHAPED.%s)" % mode)
     r2, w2 = ("unsat", None)
     if r1 == "unsat":
-        r2, w2 = q.member_of_difference(impl, hi, "L(_JWS_SHAPED.%s) ⊆ seg+ . seg* . seg* with optional trailing newline" % mode)
+        r2, w2 = q.member_of_difference(impl, hi, "L(_JWS_SHAPED.%s) ⊆ strings with at least two '.' separators" % mode)
     res.update(queries=q.queries, discharged=q.discharged, solver_s=round(q.solver_s, 3), samples=q.log, distinct=q.discharged)
     wit = w1 if r1 == "sat" else w2 if r2 == "sat" else None
     if wit is not None:
@@ -153,7 +166,7 @@ def jws_shape_language(budget: float, replay=None) -> dict:
         return res
     if r1 == "unsat" and r2 == "unsat":
         res["verdict"] = "CONFIRMED"
-        res["note"] = "upper bound includes 'a.b.c\\n' (Python `$`) and the detached-content form 'a..c': refused as JWS-shaped — over-refusal only"
+        res["note"] = "upper bound = any string with two or more dots (compact JOSE look-alikes): refusing those is over-refusal only; fewer dots must reach the resolver"
     else:
         res.update(verdict="INCONCLUSIVE", detail="solver returned unknown")
     return res
@@ -210,7 +223,14 @@ def _real_post(resolver, raw: bytes, caller: str | None = _PROXY, enabled: bool 
 _HOLD: dict = {"body": None, "loads_error": 0, "auth": None}
 
 
-class _BodyBytes:
+class _Fake:
+    """Base of every fake: anything outside the modelled surface is a harness-model error, never a verdict."""
+
+    def __getattr__(self, name: str) -> object:
+        raise HarnessModelError(f"{type(self).__name__} fake used through .{name}, which it does not model")
+
+
+class _BodyBytes(_Fake):
     """What `json.dumps(obj, ...).encode()` yields under the stub: remembers the object that was serialised."""
 
     def __init__(self, obj: object, separators: object) -> None:
@@ -218,7 +238,7 @@ class _BodyBytes:
         self.separators = separators
 
 
-class _Dumped:
+class _Dumped(_Fake):
     def __init__(self, obj: object, separators: object) -> None:
         self._obj, self._sep = obj, separators
 
@@ -226,29 +246,30 @@ class _Dumped:
         return _BodyBytes(self._obj, self._sep)
 
 
-class _JsonStub:
+class _JsonStubT(_Fake):
     """json for _read_token / on_post: loads = any JSON value or ValueError/UnicodeDecodeError; dumps = recorder."""
 
     JSONDecodeError = json.JSONDecodeError
 
-    @staticmethod
-    def loads(raw: object) -> object:
+    def loads(self, raw: object, *a: object, **k: object) -> object:
         if _HOLD["loads_error"] == 1:
             raise json.JSONDecodeError("Expecting value", "doc", 0)
         if _HOLD["loads_error"] == 2:
             raise UnicodeDecodeError("utf-8", b"\xff", 0, 1, "invalid start byte")
         return _HOLD["body"]
 
-    @staticmethod
-    def dumps(obj: object, separators: object = None, **kw: object) -> _Dumped:
+    def dumps(self, obj: object, *a: object, separators: object = None, **kw: object) -> _Dumped:
         return _Dumped(obj, separators)
 
 
-def _stub_auth() -> tuple:
+_JsonStub = _JsonStubT()
+
+
+def _stub_auth(*a: object, **k: object) -> tuple:
     return _HOLD["auth"], {}
 
 
-def _stub_digest(token: str) -> str:
+def _stub_digest(token: str, *a: object, **k: object) -> str:
     return "0" * 64
 
 
@@ -260,12 +281,12 @@ class _Res(intro._TokenIntrospectionResource):
     on_post = reglobalize(intro._TokenIntrospectionResource.on_post, json=_JsonStub, _get_auth_and_metadata=_stub_auth, token_digest=_stub_digest)
 
 
-class _AllowAll:
-    def allow(self, key: str, now: float | None = None) -> bool:
+class _AllowAll(_Fake):
+    def allow(self, key: str, *a: object, **k: object) -> bool:
         return True
 
 
-class _Raw:
+class _Raw(_Fake):
     """Request body bytes of a given (symbolic) length; only len() and json.loads (stub) ever look at it."""
 
     def __init__(self, n: int) -> None:
@@ -275,7 +296,7 @@ class _Raw:
         return self._n
 
 
-class _BoundedStream:
+class _BoundedStream(_Fake):
     def __init__(self, total: int) -> None:
         self._total = total
 
@@ -285,7 +306,7 @@ class _BoundedStream:
         return _Raw(size)
 
 
-class _Req:
+class _Req(_Fake):
     remote_addr = "10.0.0.9"
     method = "POST"
 
@@ -295,7 +316,7 @@ class _Req:
         self.stream = self.bounded_stream
 
 
-class _Resp:
+class _Resp(_Fake):
     def __init__(self) -> None:
         self.status: object = "200 OK"
         self.content_type: object = None
@@ -356,14 +377,34 @@ def _make_body(body_kind: int, token: object) -> tuple[object, int]:
     shapes = [None, True, 5, "token", ["token"], {}, {"token": None}, {"token": 5}, {"token": True}, {"token": ["a"]}, {"token": {"token": "a"}}]
     if body_kind - 2 < len(shapes):
         return _pick(shapes, body_kind - 2), 0
-    return {"token": token, "other": "x"}, 0  # body_kind 13: the only usable shape
+    if body_kind == 13:
+        return {"token": token}, 0  # the canonical request of WIRE_PROTOCOL §16 ("exactly one key"): the usable shape
+    # body_kind 14: a usable token next to an unknown key.  The spec says the body carries exactly one key, so an
+    # endpoint may treat this as malformed (uniform 404, resolver not asked) or ignore the extra key: either outcome.
+    return {"token": token, "other": "x"}, 0
+
+
+def _must_accept_ttl(v: object) -> bool:
+    """ttl values the endpoint has to relay: TokenIdentity.ttl_seconds is an ``int``; a positive one is well-formed.
+    A finite positive float is outside the declared type: relaying it or refusing it as a transient are both fine."""
+    return isinstance(v, int) and not isinstance(v, bool) and v > 0
 
 
 def _snapshot(resp: _Resp) -> tuple:
     data = resp.data
     if isinstance(data, _BodyBytes):
         data = ("dumped", data.obj, data.separators)
-    return (_status_code(resp.status), resp.content_type, data, tuple(sorted(resp.headers)))
+    return (_status_code(resp.status), resp.content_type, data, resp.text, resp.media, tuple(sorted(resp.headers)))
+
+
+def _outcome(resp: _Resp, exc: BaseException | None) -> tuple[int, dict]:
+    """(status, lower-cased headers) the client will see.  An escaping falcon.HTTPError is rendered by falcon with
+    its own status/headers; any other escaping exception is falcon's 500."""
+    if exc is None:
+        return _status_code(resp.status), {str(n).lower(): v for n, v in resp.headers}
+    if isinstance(exc, falcon.HTTPError):
+        return _status_code(exc.status), {str(k).lower(): v for k, v in (exc.headers or {}).items()}
+    return 500, {}
 
 
 def _run_endpoint(caller: int, content_length: int | None, body_len: int, body: object, loads_error: int, resolver) -> tuple[_Resp, BaseException | None]:
@@ -388,6 +429,38 @@ _REF_RESP, _REF_EXC = _run_endpoint(1, None, 3, None, 1, _no_resolver)
 if _REF_EXC is not None:
     raise HarnessModelError(f"reference refusal raised {_REF_EXC!r}")
 _REF_404 = _snapshot(_REF_RESP)
+
+
+def _ref_403(caller: int) -> tuple | None:
+    if caller == 1:
+        return None
+    resp, exc = _run_endpoint(caller, None, 3, None, 1, _no_resolver)
+    if exc is not None:
+        return ("reference request raised", repr(exc))  # equal to no snapshot: the real-app replay then decides
+    return _snapshot(resp)
+
+
+# per caller kind outside the allowlist: what that caller is answered when it posts something that is not JSON
+_REF_403 = [_ref_403(c) for c in range(len(_CALLERS))]
+
+
+def _same_shape_other(token: str) -> str:
+    """A different subject of the same shape: letters/digits rotated inside their class, everything else kept."""
+    out = []
+    for ch in token:
+        if "a" <= ch <= "z":
+            out.append(chr((ord(ch) - 97 + 7) % 26 + 97))
+        elif "A" <= ch <= "Z":
+            out.append(chr((ord(ch) - 65 + 7) % 26 + 65))
+        elif "0" <= ch <= "9":
+            out.append(chr((ord(ch) - 48 + 3) % 10 + 48))
+        else:
+            out.append(ch)
+    return "".join(out)
+
+
+def _response_text(body: bytes, hdr: dict) -> str:
+    return body.decode("utf-8", "replace") + "\n" + "\n".join(f"{k}: {v}" for k, v in sorted(hdr.items()))
 
 
 def _replay_endpoint(args: dict) -> str | None:
@@ -425,12 +498,27 @@ def _replay_endpoint(args: dict) -> str | None:
     ref_status, ref_body, _ = _real_post(lambda t: None, b"{not json", auth=_pick(_CALLERS, 1))
     status, body, hdr = _real_post(resolver, raw, auth=_pick(_CALLERS, caller), declared_length=declared)
     what = f"caller kind {caller}, body kind {body_kind}, {len(raw)} bytes, token {token[:12]!r}{'…' if len(token) > 12 else ''}, resolver outcome {res_kind}"
+    # "the subject credential never appears in any response", judged as non-interference on real responses: the
+    # response to subject T shows T, the response to a same-shaped subject T' shows T' — and not the other way round
+    # (so a token that merely coincides with fixed response text, or with the identity's principal, is not a leak)
+    if body_kind in (13, 14) and not oversized:
+        token2 = _same_shape_other(token)
+        if token2 != token:
+            n_calls = len(calls)
+            raw2 = json.dumps(_make_body(body_kind, token2)[0]).encode()
+            status2, body2, hdr2 = _real_post(resolver, raw2, auth=_pick(_CALLERS, caller), declared_length=declared)
+            del calls[n_calls:]
+            text1, text2 = _response_text(body, hdr), _response_text(body2, hdr2)
+            if token in text1 and token2 in text2 and token not in text2 and token2 not in text1:
+                return f"{what}: the subject credential is echoed in the response ({status} {text1[:120]!r})"
     if caller != 1:
         return None if (status == 403 and not calls) else f"{what}: expected 403 without consulting the resolver, got {status} (resolver calls {len(calls)})"
-    usable = not oversized and body_kind == 13 and 0 < len(token) <= _CAP_TOKEN
+    usable = not oversized and body_kind in (13, 14) and 0 < len(token) <= _CAP_TOKEN
+    if usable and body_kind == 14 and not calls and (status, body) == (ref_status, ref_body) and status == 404:
+        return None  # a second key next to "token": refusing the body as malformed is one of the two allowed outcomes
     jws = usable and _SPEC_MIN_RE.fullmatch(token) is not None  # the specification's language, not the code's regex
     if usable and not jws and _SPEC_MAX_RE.fullmatch(token) is not None and not calls:
-        jws = True  # tolerated over-refusal (detached-content form / trailing newline)
+        jws = True  # tolerated over-refusal (a compact JOSE look-alike: two or more dots)
     if not usable or jws or res_kind == 1:
         if (not usable or jws) and calls:
             return f"{what}: malformed / JWS-shaped subject reached the resolver"
@@ -440,12 +528,12 @@ def _replay_endpoint(args: dict) -> str | None:
             return f"{what}: answered {status} {body[:60]!r}, the reference refusal is {ref_status} {ref_body[:60]!r} (must be byte-identical)"
         return None
     if res_kind == 2:
-        ok = status == 503 and hdr.get("retry-after") == str(ra)
-        return None if ok else f"{what}: resolver unavailable, expected 503 with Retry-After {ra}, got {status} {hdr.get('retry-after')!r}"
+        ok = status == 503 and bool(hdr.get("retry-after"))
+        return None if ok else f"{what}: resolver unavailable (retry_after={ra}), expected 503 with a Retry-After header, got {status} {hdr.get('retry-after')!r}"
     if res_kind == 3:
         return None if status >= 500 else f"{what}: a resolver exception surfaced as {status}"
     if status != 200:
-        return None if (status >= 500 and not _finite_positive(ttl)) else f"{what}: identity with ttl {ttl!r} answered {status}"
+        return None if (status >= 500 and not _must_accept_ttl(ttl)) else f"{what}: identity with ttl {ttl!r} answered {status}"
     text = body.decode("utf-8", "replace")
     try:
         got = json.loads(text, parse_constant=lambda c: float(c.replace("Infinity", "inf").replace("NaN", "nan")))
@@ -462,7 +550,7 @@ def _check_table(caller: int, has_len: bool, clen: int, blen: int, body_kind: in
                  res_kind: int, ttl_kind: int, ttl: int, princ: str, tname: str, retry_after: int) -> bool:  # fmt: skip
     # every choice is made as late as the endpoint can observe it, so the path tree follows the endpoint's own gates
     token: object = None
-    if body_kind == 13:
+    if body_kind >= 13:
         token = tok if tok_kind == 0 else "x" * (_CAP_TOKEN + tok_kind - 1)
     body, loads_error = _make_body(body_kind, token)
     calls: list = []
@@ -483,23 +571,27 @@ def _check_table(caller: int, has_len: bool, clen: int, blen: int, body_kind: in
     resp, exc = _run_endpoint(caller, clen if has_len else None, blen, body, loads_error, resolver)
 
     # ---- the table ------------------------------------------------------------------------
+    status, hdrs = _outcome(resp, exc)
     if caller != 1:
-        # 403 for everyone outside the allowlist, before anything about the subject is looked at
-        return exc is None and _status_code(resp.status) == 403 and len(calls) == 0 and not isinstance(resp.data, _BodyBytes)
+        # 403 for everyone outside the allowlist, before anything about the subject is looked at: the resolver is not
+        # asked and the answer is the one this caller gets for any other body (nothing of the subject is in it)
+        return exc is None and status == 403 and len(calls) == 0 and _snapshot(resp) == _pick(_REF_403, caller)
     usable = (
         not (has_len and clen > _CAP_BODY)
         and blen <= _CAP_BODY
-        and body_kind == 13
+        and body_kind >= 13
         and isinstance(token, str)
         and 0 < len(token) <= _CAP_TOKEN
     )
     if not usable:
         return exc is None and len(calls) == 0 and _snapshot(resp) == _REF_404 and _REF_404[0] == 404
+    if body_kind == 14 and exc is None and len(calls) == 0 and _snapshot(resp) == _REF_404:
+        return True  # an unknown key next to "token": refused as malformed (the other allowed outcome: key ignored)
     # JWS shape decided by the specification's language (SPEC_MIN must be refused, SPEC_MAX may be), never by
     # the endpoint's own pattern: an oracle that mirrors the code cannot see a pattern that drifted
     if _SPEC_MIN_RE.fullmatch(token) is not None:
         return exc is None and len(calls) == 0 and _snapshot(resp) == _REF_404
-    if len(calls) == 0 and _SPEC_MAX_RE.fullmatch(token) is not None:
+    if len(calls) == 0 and _may_be_refused_as_jws(token):
         return exc is None and _snapshot(resp) == _REF_404
     # the resolver is consulted exactly once, with the subject credential
     if len(calls) != 1 or calls[0] != token:
@@ -507,22 +599,25 @@ def _check_table(caller: int, has_len: bool, clen: int, blen: int, body_kind: in
     if res_kind == 1:
         return exc is None and _snapshot(resp) == _REF_404
     if res_kind == 2:
-        if not isinstance(exc, falcon.HTTPServiceUnavailable):
-            return False
-        hdrs = {str(k).lower(): v for k, v in (exc.headers or {}).items()}
-        return hdrs.get("retry-after") == str(retry_after) and exc.description == "directory is down" and resp.data is None
+        # 503 with a Retry-After header (its value is the endpoint's to choose: the spec only asks for the header)
+        ra_header = hdrs.get("retry-after")
+        return status == 503 and ra_header is not None and ra_header != ""
     if res_kind == 3:
         # not the endpoint's to classify: it must surface as a transient (5xx), never as a definitive answer
-        return exc is not None and not (isinstance(exc, falcon.HTTPError) and _status_code(exc.status) < 500) and resp.data is None
+        return status >= 500
     # identity
     ttl_value = ttl_box[0]
+    if status != 200:
+        # refusing to vouch for a ttl is acceptable only as a transient, and only when the ttl is not a positive int
+        return status >= 500 and not _must_accept_ttl(ttl_value)
     if exc is not None:
-        # refusing to vouch for an unusable ttl is acceptable only as a transient, and only when the ttl is unusable
-        transient = not (isinstance(exc, falcon.HTTPError) and _status_code(exc.status) < 500)
-        return transient and not _finite_positive(ttl_value) and resp.data is None
-    if _status_code(resp.status) != 200 or not isinstance(resp.data, _BodyBytes):
         return False
-    out = resp.data.obj
+    if isinstance(resp.data, _BodyBytes):
+        out = resp.data.obj
+    elif resp.data is None and resp.text is None and resp.media is not None:
+        out = resp.media  # falcon serialises resp.media with the JSON handler
+    else:
+        return False
     if not isinstance(out, dict) or len(out) != 3:
         return False
     if "principal" not in out or "token_name" not in out or "ttl_seconds" not in out:
@@ -531,22 +626,29 @@ def _check_table(caller: int, has_len: bool, clen: int, blen: int, body_kind: in
         return False
     if not _finite_positive(out["ttl_seconds"]):
         return False
-    if _finite_positive(ttl_value) and out["ttl_seconds"] != ttl_value:
-        return False
-    # nothing but the no-store directive and the content type rides along
-    return all(n.lower() == "cache-control" and v == "no-store" for n, v in resp.headers)
+    # the window the caller caches on is the resolver's, never a wider one
+    return not (_finite_positive(ttl_value) and out["ttl_seconds"] > ttl_value)
+
+
+def _sig_table(args: dict) -> str:
+    """SIG_TTL only for what it names: an allowlisted caller, a usable subject, an identity whose ttl is unusable."""
+    if args.get("caller", 1) == 1 and args.get("body_kind", 13) >= 13 and args.get("res_kind") == 0:
+        ttl = args.get("ttl", 300) if args.get("ttl_kind", 0) == 0 else _pick(_TTL_SPECIALS, args["ttl_kind"] - 1)
+        if not _finite_positive(ttl):
+            return SIG_TTL
+    return "C36:status-table"
 
 
 _TABLE_STUBS = ["json := contract stub (loads: any JSON value | ValueError | UnicodeDecodeError; dumps: recorder)", "token_digest := constant",
                 "_get_auth_and_metadata := harness caller", "_limiter.allow := True", "falcon req/resp := attribute fakes"]
 
 
-@cond(q=60, t=240, tiers=("thorough",), stubs=_TABLE_STUBS, encoded=ENCODED, bound=BOUNDS, replay=_replay_endpoint,
-      signature=lambda args, conc: SIG_TTL if args.get("res_kind") == 0 else "C36:status-table")
+@cond(q=60, t=420, tiers=("thorough",), stubs=_TABLE_STUBS, encoded=ENCODED, bound=BOUNDS, replay=_replay_endpoint,
+      signature=lambda args, conc: _sig_table(args))
 def endpoint_status_table(caller: int, has_len: bool, clen: int, blen: int, body_kind: int, tok_kind: int, tok: str,
                           res_kind: int, ttl_kind: int, ttl: int, princ: str, tname: str, retry_after: int) -> bool:  # fmt: skip
     """
-    pre: 0 <= caller <= 4 and blen >= 0 and 0 <= body_kind <= 13 and 0 <= tok_kind <= 2 and len(tok) <= _TL
+    pre: 0 <= caller <= 4 and blen >= 0 and 0 <= body_kind <= 14 and 0 <= tok_kind <= 2 and len(tok) <= _TL
     pre: 0 <= res_kind <= 3 and 0 <= ttl_kind <= 7 and len(princ) <= 2 and len(tname) <= 2 and 0 <= retry_after <= 1
     post: _
     """
@@ -555,12 +657,12 @@ def endpoint_status_table(caller: int, has_len: bool, clen: int, blen: int, body
     return _check_table(caller, has_len, clen, blen, body_kind, tok_kind, tok, res_kind, ttl_kind, ttl, princ, tname, retry_after)
 
 
-@cond(q=60, t=240, tiers=("thorough",), stubs=_TABLE_STUBS, encoded=ENCODED, bound=BOUNDS + "; resolver identities restricted to a finite positive ttl_seconds (any int > 0, or 0.5)",
+@cond(q=60, t=420, tiers=("thorough",), stubs=_TABLE_STUBS, encoded=ENCODED, bound=BOUNDS + "; resolver identities restricted to a finite positive ttl_seconds (any int > 0, or 0.5)",
       replay=_replay_endpoint, signature=lambda args, conc: "C36:status-table")
 def endpoint_status_table_wellformed_identity(caller: int, has_len: bool, clen: int, blen: int, body_kind: int, tok_kind: int, tok: str,
                                               res_kind: int, ttl_kind: int, ttl: int, princ: str, tname: str, retry_after: int) -> bool:  # fmt: skip
     """
-    pre: 0 <= caller <= 4 and blen >= 0 and 0 <= body_kind <= 13 and 0 <= tok_kind <= 2 and len(tok) <= _TL
+    pre: 0 <= caller <= 4 and blen >= 0 and 0 <= body_kind <= 14 and 0 <= tok_kind <= 2 and len(tok) <= _TL
     pre: 0 <= res_kind <= 3 and len(princ) <= 2 and len(tname) <= 2 and 0 <= retry_after <= 1
     pre: (ttl_kind == 0 and ttl > 0) or ttl_kind == 4
     post: _
@@ -575,17 +677,17 @@ _SUBJ_FIXED = {"caller": 1, "has_len": False, "clen": 0, "blen": 40, "body_kind"
 
 
 @cond(q=60, t=120, stubs=_TABLE_STUBS, encoded=ENCODED, replay=lambda args: _replay_endpoint({**_GATE_FIXED, **args}), signature=lambda args, conc: "C36:status-table",
-      bound="caller kinds x declared length (any int / absent) x actual length (any int>=0) x 14 body shapes x token {short, at cap, over cap} x 4 resolver outcomes; identity fixed and well-formed")
+      bound="caller kinds x declared length (any int / absent) x actual length (any int>=0) x 15 body shapes x token {short, at cap, over cap} x 4 resolver outcomes; identity fixed and well-formed")
 def request_gates_table(caller: int, has_len: bool, clen: int, blen: int, body_kind: int, tok_kind: int, res_kind: int) -> bool:
     """
-    pre: 0 <= caller <= 4 and blen >= 0 and 0 <= body_kind <= 13 and 0 <= tok_kind <= 2 and 0 <= res_kind <= 3
+    pre: 0 <= caller <= 4 and blen >= 0 and 0 <= body_kind <= 14 and 0 <= tok_kind <= 2 and 0 <= res_kind <= 3
     post: _
     """
     return _check_table(caller, has_len, clen, blen, body_kind, tok_kind, "opaque", res_kind, 0, 300, "p", "n", 1)
 
 
 @cond(q=60, t=120, stubs=_TABLE_STUBS, encoded=ENCODED, replay=lambda args: _replay_endpoint({**_SUBJ_FIXED, **args}),
-      signature=lambda args, conc: SIG_TTL if args.get("res_kind") == 0 else "C36:status-table",
+      signature=lambda args, conc: _sig_table({**_SUBJ_FIXED, **args}),
       bound="allowlisted caller, usable body: subject token any str len<=%d / at cap / over cap x 4 resolver outcomes x identity with ANY ttl_seconds (any int, nan, +-inf, 0.5, bool, None, str), principal/token_name any str len<=2, retry_after 0..1" % _TL)
 def subject_and_resolver_table(tok_kind: int, tok: str, res_kind: int, ttl_kind: int, ttl: int, princ: str, tname: str, retry_after: int) -> bool:
     """
@@ -611,10 +713,20 @@ def subject_and_resolver_table_wellformed_identity(tok_kind: int, tok: str, res_
 
 
 def _replay_disabled(args: dict) -> str | None:
+    """Un-stubbed: an app built WITHOUT introspect_resolver.  Any authenticated caller (allowlist-named or not) must
+    be answered 404 whatever it posts; an anonymous caller may be stopped earlier by the auth middleware, with one of
+    the statuses the spec calls definitive (401 / 403 / 404) — never a status a caller reads as transient."""
     calls: list = []
-    status, body, hdr = _real_post(lambda t: calls.append(t), json.dumps({"token": "opaque"}).encode(), caller=None, enabled=False)
-    if status != 404:
-        return f"worker without introspection answered {status} {body[:60]!r}"
+    blen = args.get("blen", 0)
+    bodies = [json.dumps({"token": "opaque"}).encode(), b"{not json", b"x" * min(max(int(blen), 0), _CAP_BODY + 1)]
+    for raw in bodies:
+        for who in (_PROXY, "mallory"):
+            status, body, _hdr = _real_post(lambda t: calls.append(t), raw, caller=who, enabled=False)
+            if status != 404:
+                return f"worker without introspection answered {status} {body[:60]!r} to authenticated caller {who!r} posting {raw[:24]!r}"
+        status, body, _hdr = _real_post(lambda t: calls.append(t), raw, caller=None, enabled=False)
+        if status not in (401, 403, 404):
+            return f"worker without introspection answered {status} {body[:60]!r} to an anonymous caller: not a definitive status"
     return None
 
 
@@ -626,11 +738,11 @@ def disabled_worker_answers_definitive_404(has_len: bool, clen: int, blen: int) 
     post: _
     """
     req, resp = _Req(clen if has_len else None, blen), _Resp()
+    exc: BaseException | None = None
     try:
         intro._IntrospectionDisabledResource().on_post(req, resp)  # type: ignore[arg-type]
-    except Exception:  # noqa: BLE001
-        return False
-    if _status_code(resp.status) != 404 or not isinstance(resp.data, bytes):
-        return False
-    # definitive, machine-readable, distinguishable from the enabled endpoint's "unresolved"
-    return resp.data != _REF_404[2] and isinstance(json.loads(resp.data), dict) and ("Cache-Control", "no-store") in resp.headers
+    except Exception as e:  # noqa: BLE001
+        exc = e
+    # the property: a 404, whatever the request looks like (body format, headers and wording are the endpoint's own)
+    status, _hdrs = _outcome(resp, exc)
+    return status == 404
